@@ -490,8 +490,8 @@ PROPS["C26"] = {
                   "to be such steps), c26_spec_* (sanity of the specification; c26_spec_agrees_with_broker). The property at full strength (C26Full: every script, composed model = specification) is stated and NOT proved; it is decided script by script: the "
                   "system suite runs the REAL client library against the REAL gateway (Gateway.ListenAndServe, UDP loopback) and a conforming MQTT broker, runs the composed Lean model "
                   "(client model || lossless link || gateway model || broker) on the same scripts (correspondence) and evaluates the specification Spec/System.lean on the "
-                  "implementation's own results (every call's result, the broker's received publishes and subscription table, every expected handler invocation). Three genuine "
-                  "defects found this way were repaired (fix commits 0298647, 75d4de9, 3a936e9); one is recorded as a known finding",
+                  "implementation's own results (every call's result, the broker's received publishes and subscription table, every expected handler invocation). Five genuine "
+                  "defects found this way were repaired (fix commits 0298647 + 75d4de9, 3a936e9, bb9fec9, and the client crash 1f0bbdd)",
     "technique": "Lean 4 theorems over the two hand-written models + executed composed model + specification monitor on runs of the two real implementations together",
     "suites": ["system", "gateway", "client"],
     "relevant": lambda line: line.startswith("DIFF system "),
@@ -506,7 +506,7 @@ PROPS["C26"] = {
     "assumptions": ["DTLS, authentication, wills and the keep-alive goroutine are off in the system suite (they are covered by the client, gateway and cli suites)",
                     "duplicates of a message at the handler (retransmissions queued for a sleeping client) are not judged: the property asks that a message reaches the handler",
                     "calls are made one at a time (the property's 'sequence'); concurrent API use is the client suite's business"],
-    "explanation": "partial theorems c26_*; composed model executed beside the two real implementations; specification monitor; 1 known finding",
+    "explanation": "partial theorems c26_*; composed model executed beside the two real implementations; specification monitor",
 }
 
 # the thorough tier: four times the case counts written above (a gateway or client session costs about 2 ms)
